@@ -170,18 +170,3 @@ Example run_nonvacuous :
      [announce c wit_m2]; [request_to c MAC_BCAST 3232235522]].
 Proof. vm_compute. reflexivity. Qed.
 
-(* K4: a refused write of an announcement ends the loop and leaves the MAC in the hunt list: hunted, open
-   handler, yet no loop is left for it — nothing spoofs it again and nothing will restore it *)
-Theorem write_error_kills_loop_refuted :
-  exists c evs m,
-    cfg_ok c /\
-    let s := final c init_state evs in
-    closed s = false /\ hunted s m = true /\ (forall i, live s i = false) /\
-    outputs c s [StopHunt m; Lookup 0; Check 0; Send 0] = [[]; []; []; []].
-Proof.
-  exists wit_cfg, [StartHunt wit_a1; Lookup 0; Check 0; Send 0; FailWrites 1; Lookup 0; Check 0; Send 0; FailWrites 0], wit_m1.
-  split; [exact wit_cfg_ok|]. cbv zeta.
-  split; [vm_compute; reflexivity|]. split; [vm_compute; reflexivity|].
-  split; [|vm_compute; reflexivity].
-  intros i. destruct i as [|i]; [vm_compute; reflexivity|]. destruct i; vm_compute; reflexivity.
-Qed.
